@@ -228,7 +228,6 @@ Pipe *Kernel::pipe_new() {
   Pipe *p = new Pipe();
   p->id = (int) pipes.size();
   p->cap = w.pipe_cap;
-  p->buf.resize(p->cap);
   pipes.push_back(p);
   return p;
 }
